@@ -11,11 +11,13 @@ pub struct TcpHeader {
     dstport: u16,     // Destination port number
     sequence: u32,    // Sequence number
     ack: u32,         // Acknowledgment number
-    data_off: u8,     // Data offset
-    flags: u16,       // Flags for TCP
+    data_off: u8,     // Data offset (4 bits)
+    reserved: u8,     // Reserved bits (4 bits)
+    flags: u16,       // Flags for TCP (8 control bits)
     window_size: u16, // Window size
     checksum: u16,    // Checksum for integrity
     urgent: u16,      // Urgent pointer
+    options: Vec<u8>, // Option bytes that follow the fixed part (data_off > 5)
 }
 
 impl From<&TcpHeader> for Vec<u8> {
@@ -25,9 +27,12 @@ impl From<&TcpHeader> for Vec<u8> {
         bytes.extend_from_slice(&hdr.dstport.to_be_bytes());
         bytes.extend_from_slice(&hdr.sequence.to_be_bytes());
         bytes.extend_from_slice(&hdr.ack.to_be_bytes());
-        bytes.extend_from_slice(&hdr.flags.to_be_bytes());
+        bytes.push((hdr.data_off << 4) | (hdr.reserved & 0x0F));
+        bytes.push(hdr.flags as u8);
         bytes.extend_from_slice(&hdr.window_size.to_be_bytes());
         bytes.extend_from_slice(&hdr.checksum.to_be_bytes());
+        bytes.extend_from_slice(&hdr.urgent.to_be_bytes());
+        bytes.extend_from_slice(&hdr.options);
         bytes
     }
 }
@@ -85,10 +90,18 @@ impl Tcp {
             rawdata[off + 11],
         ]);
         let data_off = rawdata[off + 12] >> 4;
-        let flags = u16::from_be_bytes([rawdata[off + 12], rawdata[off + 13]]);
+        let reserved = rawdata[off + 12] & 0x0F;
+        let flags = rawdata[off + 13] as u16;
         let window_size = u16::from_be_bytes([rawdata[off + 14], rawdata[off + 15]]);
         let checksum = u16::from_be_bytes([rawdata[off + 16], rawdata[off + 17]]);
         let urgent = u16::from_be_bytes([rawdata[off + 18], rawdata[off + 19]]);
+        // The header is never shorter than its fixed part, and the options
+        // the data offset announces must be present in the data.
+        let header_len = std::cmp::max(data_off as usize * 4, TCP_HEADER_SIZE);
+        if rawdata.len() < off + header_len {
+            return Err(PacketError::InvalidLength(rawdata.len()));
+        }
+        let options = rawdata[(off + TCP_HEADER_SIZE)..(off + header_len)].to_vec();
 
         let header = RefCell::new(TcpHeader {
             srcport,
@@ -96,16 +109,18 @@ impl Tcp {
             sequence,
             ack,
             data_off,
+            reserved,
             flags,
             window_size,
             checksum,
             urgent,
+            options,
         });
 
         Ok(Self {
             header,
             rawdata: RefCell::new(rawdata),
-            offset: off + TCP_HEADER_SIZE,
+            offset: off + header_len,
             inner: RefCell::new(None),
         })
     }
@@ -189,6 +204,9 @@ impl Tcp {
     pub fn set_data_off(&self, data_off: Rc<Object>) -> Result<(), String> {
         match data_off.as_ref() {
             Object::Integer(data_off_value) => {
+                if *data_off_value < 0 || *data_off_value > 15 {
+                    return Err("Invalid value for data offset".to_string());
+                }
                 self.header.borrow_mut().data_off = *data_off_value as u8;
                 Ok(())
             }
@@ -199,6 +217,9 @@ impl Tcp {
     pub fn set_flags(&self, flags: Rc<Object>) -> Result<(), String> {
         match flags.as_ref() {
             Object::Integer(flags_value) => {
+                if *flags_value < 0 || *flags_value > 255 {
+                    return Err("Invalid value for flags".to_string());
+                }
                 self.header.borrow_mut().flags = *flags_value as u16;
                 Ok(())
             }
